@@ -96,6 +96,25 @@ pub fn fixtures() -> Vec<(String, Ledger)> {
     out
 }
 
+/// shares of `tk` held when day `date` begins, in the units then current: purchases minus sales of the
+/// earlier days, each day's SPLIT/UNSPLIT applied after that day's trades
+pub fn position_before(l: &[GTx], tk: &str, date: chrono::NaiveDate) -> crate::q::Q {
+    use crate::q::Q;
+    let mut days: Vec<chrono::NaiveDate> = l.iter().filter(|t| t.ticker == tk && t.date < date).map(|t| t.date).collect();
+    days.sort();
+    days.dedup();
+    let mut p = Q::zero();
+    for d in days {
+        for t in l.iter().filter(|t| t.ticker == tk && t.date == d) {
+            match t.kind { Kind::Buy => p = p.add(&Q::from_dec(t.a)), Kind::Sell => p = p.sub(&Q::from_dec(t.a)), _ => {} }
+        }
+        for t in l.iter().filter(|t| t.ticker == tk && t.date == d) {
+            match t.kind { Kind::Split => p = p.mul(&Q::from_dec(t.a)), Kind::Unsplit => { if !t.a.is_zero() { p = p.div(&Q::from_dec(t.a)); } } _ => {} }
+        }
+    }
+    p
+}
+
 // ----- the real binary against the library, on the same ledger ----------------------------------
 
 /// `cgt-tool report in.cgt --format json [--year Y]` against `calculate()` called in-process with the
